@@ -446,6 +446,13 @@ pub fn gen_c13(rng: &mut Rng, thorough: bool) -> WorldTrace {
         l
     };
     let mut variants = vec![base("dir", Entry::Check, vec!["ws".into()], rng)];
+    if let Some(f) = &world.fault {
+        // reference run without the planted fault: only if it is accepted is the world a single-fault
+        // unit, for which a directory and its file list must also report the same codes
+        let mut v = canonical_variant(&world, "nofault");
+        v.files[0].decls.retain(|d| !f.involved.contains(d));
+        variants.push(v);
+    }
     if files.len() <= 3 {
         // every argument order (the quantifier's "in every argument order")
         let mut names: Vec<String> = files.iter().map(|f| format!("ws/{}", f.name)).collect();
@@ -610,6 +617,12 @@ fn oracle_c13(t: &WorldTrace, obs: &[Obs], stats: &mut Stats) -> Vec<Violation> 
     }
     // fault-free equivalences
     let find = |role: &str| t.variants.iter().zip(obs).filter(|(v, _)| v.role == role).collect::<Vec<_>>();
+    // codes are compared for valid and single-fault worlds only: with several faults an analysis that
+    // stops at the first problem of a stage may legitimately report another one for another file order
+    let single_fault = match &t.world.fault {
+        None => true,
+        Some(_) => find("nofault").first().map(|(_, o)| !o.failed()).unwrap_or(false),
+    };
     if let Some((_, dir)) = find("dir").first() {
         for (v, o) in find("files").into_iter().chain(find("mix")) {
             stats.count("c13.dir_vs_files_comparisons");
@@ -619,7 +632,8 @@ fn oracle_c13(t: &WorldTrace, obs: &[Obs], stats: &mut Stats) -> Vec<Violation> 
                     format!("C13/dir-differs-from-files/{}/{kind}", v.role),
                     format!("check of the directory gives {} {:?} but check of args {:?} gives {} {:?}", outcome_word(&dir.outcome), dir.codes(), v.args, outcome_word(&o.outcome), o.codes()),
                 ));
-            } else if dir.codes() != o.codes() {
+            } else if single_fault && dir.codes() != o.codes() {
+                stats.count("c13.dir_vs_files_code_comparisons");
                 out.push(viol(
                     "C13",
                     format!("C13/dir-codes-differ-from-files/{}/{kind}", v.role),
@@ -1347,15 +1361,22 @@ pub fn shrink(t: &WorldTrace) -> Vec<WorldTrace> {
                 }
             }
         }
-        // 4. towards the identity layout: sorted declarations, sorted files, fewer files
+        // 4. towards the identity layout: sorted declarations, sorted files, fewer files. Variants
+        // that share a layout (C13: a directory and the list of its files) change together.
+        let same_layout: Vec<usize> = (0..t.variants.len()).filter(|j| t.variants[*j].files == v.files).collect();
+        if same_layout.first() != Some(&vi) {
+            continue;
+        }
         let mut n = t.clone();
         let mut changed = false;
-        for f in n.variants[vi].files.iter_mut() {
-            let mut s = f.decls.clone();
-            s.sort();
-            if s != f.decls {
-                f.decls = s;
-                changed = true;
+        for j in &same_layout {
+            for f in n.variants[*j].files.iter_mut() {
+                let mut s = f.decls.clone();
+                s.sort();
+                if s != f.decls {
+                    f.decls = s;
+                    changed = true;
+                }
             }
         }
         if changed {
@@ -1364,12 +1385,14 @@ pub fn shrink(t: &WorldTrace) -> Vec<WorldTrace> {
         if v.files.len() > 1 {
             // merge the last file into the first
             let mut n = t.clone();
-            let last = n.variants[vi].files.pop().unwrap();
-            n.variants[vi].files[0].decls.extend(last.decls);
-            let gone = format!("ws/{}", last.name);
-            n.variants[vi].args.retain(|a| *a != gone);
-            if n.variants[vi].args.is_empty() {
-                n.variants[vi].args = n.variants[vi].files.iter().map(|f| format!("ws/{}", f.name)).collect();
+            for j in &same_layout {
+                let last = n.variants[*j].files.pop().unwrap();
+                n.variants[*j].files[0].decls.extend(last.decls);
+                let gone = format!("ws/{}", last.name);
+                n.variants[*j].args.retain(|a| *a != gone);
+                if n.variants[*j].args.is_empty() {
+                    n.variants[*j].args = n.variants[*j].files.iter().map(|f| format!("ws/{}", f.name)).collect();
+                }
             }
             out.push(n);
         }
